@@ -101,6 +101,11 @@ def _gen_call(rng, meta, force_sel=None):
             elif extra == "exact":
                 kw["exact"] = False
         return {"m": "sel", "via": "ds", "lons": lons, "lats": lats, "kw": kw, "as_array": rng.random() < 0.4}
+    if meta.get("prop") == "C17" and not recipe["dims"] and recipe.get("nd", 0) >= 4 and meta["backing"] != "dask" and rng.random() < 0.3:
+        kw = {"kind": rng.choice(["contourf", "contour", "pcolormesh"])}
+        if rng.random() < 0.5:
+            kw.update(rng.choice([{"as_period": True}, {"normalised": False}, {"logradius": False}, {"rmax": 0.3}]))
+        return {"m": "plot", "via": rng.choice(["da", "ds"]) if meta["kind"] == "ds" else "da", "kw": kw}
     pool = rng.choices(["stats", "partition", "transform", "fit", "all"], [6, 5, 2, 1, 1])[0]
     op = O.gen_op(rng, recipe, pool)
     if meta["kind"] == "da":
@@ -175,7 +180,7 @@ def gen_plan(rng, tier="quick", prop="C18"):
                 k = max(sorted(st["chunks"]), key=nb)
                 st["chunks"][k] = -1 if nb(k) <= 2 else -(-sizes[k] // 2)
         steps.append(st)
-        metas[slot] = {"kind": kind, "recipe": recipe, "backing": backing}
+        metas[slot] = {"kind": kind, "recipe": recipe, "backing": backing, "prop": prop}
         if recipe["nd"] >= 2:
             known_shapes.append((recipe["nf"], recipe["nd"]))
 
